@@ -24,6 +24,9 @@ type c19Op struct {
 type c19Plan struct {
 	Clients     [][]c19Op `json:"clients"`
 	Aggregation bool      `json:"aggregation_matching_everything"`
+
+	Churn        []string `json:"unrelated_entries_added_and_removed,omitempty"`
+	ChurnAfterUs int      `json:"churn_after_us,omitempty"`
 }
 
 type c19In struct {
@@ -120,6 +123,13 @@ func scenC19(x *Exec) {
 		}
 		p.Clients = append(p.Clients, ops)
 	}
+	if g.Bool(0.4) {
+		// meanwhile an administrator adds and removes entries that match none of these series
+		for i, n := 0, 1+g.Intn(3); i < n; i++ {
+			p.Churn = append(p.Churn, churnKinds[g.Pick(len(churnKinds))])
+		}
+		p.ChurnAfterUs = g.Intn(200)
+	}
 	x.Out.Sample = p
 	cfg.Horizon = 10 * time.Minute
 	prop := "C19"
@@ -178,7 +188,20 @@ func scenC19(x *Exec) {
 				cond.Broadcast()
 			})
 		}
-		cond.Wait(func() bool { return fin == len(p.Clients) }, time.Time{})
+		churnDone := len(p.Churn) == 0
+		if !churnDone {
+			s.Spawn("churn-admin", "admin", "relay1", func() {
+				simrt.Sleep(time.Duration(p.ChurnAfterUs) * time.Microsecond)
+				if err := unrelatedChurn(bt.T, p.Churn); err != nil {
+					s.Probe("churn.removal_failed")
+					s.Logf("churn: %v", err)
+				}
+				s.Probe("c19.unrelated_entries_added_and_removed")
+				churnDone = true
+				cond.Broadcast()
+			})
+		}
+		cond.Wait(func() bool { return fin == len(p.Clients) && churnDone }, time.Time{})
 		simrt.Sleep(10 * time.Millisecond)
 		simrt.Quiesce()
 		delivered := map[string]int{}
